@@ -6,7 +6,7 @@ use crate::gql::*;
 use crate::render::{Plan, StrStyle};
 use crate::rparse::LOCATIONS;
 
-pub const STRINGS: [&str; 18] = [
+pub const STRINGS: [&str; 20] = [
     "s",
     "",
     "a\"b",
@@ -25,6 +25,9 @@ pub const STRINGS: [&str; 18] = [
     "a\n\n b",
     "q\"",
     "\\\"\"\"",
+    // supplementary planes other than plane 1 (surrogate halves with more bits set)
+    "\u{20000}\u{2FA1D}",
+    "\u{10FFFF}",
 ];
 
 /// `rich`: optional parts are present by default (deviation removes them); otherwise absent.
